@@ -21,6 +21,7 @@ func (r readWrapper) Read(p []byte) (n int, err error) {
 
 type bufWriter struct {
 	buf []byte
+	n   int
 	w   io.Writer
 }
 
@@ -32,7 +33,10 @@ func (w *bufWriter) Write(p []byte) (n int, err error) {
 	w.buf = w.buf[:len(p)]
 	copy(w.buf, p)
 
-	return w.w.Write(w.buf)
+	// n is kept: after a short write the first n bytes of buf are already in the file.
+	w.n, err = w.w.Write(w.buf)
+
+	return w.n, err
 }
 
 func (r *Repo) Store(_ context.Context, path string, content io.Reader) (err error) {
@@ -49,7 +53,7 @@ func (r *Repo) Store(_ context.Context, path string, content io.Reader) (err err
 			err = model.NotEnoughSpaceError{
 				Err:    err,
 				Start:  f,
-				Middle: bytes.NewReader(w.buf),
+				Middle: bytes.NewReader(w.buf[w.n:]),
 				End:    content,
 			}
 		} else {
